@@ -204,6 +204,28 @@ class C16(Harness):
                 except jsonschema.ValidationError as e:
                     vs.append(V('state-fails-schema', '%s(%s): state p=%r serialized as %s does not validate against %r: %s' % (
                         t, key['cfg'], v, text, ps, e.message), level=level, value=repr(v)[:40], **key))
+            # a per-instance Parameter reconfigured after creation: the instance's schema must describe the instance's constraints
+            if t in ('Integer', 'Number') and level == 'instance' and first:
+                X = type('X', (param.Parameterized,), {'p': factory(dflt)})
+                x = X()
+                x.param.p.bounds = (-1000, 1000)
+                x.param.p.inclusive_bounds = (True, True)
+                n += 1
+                try:
+                    x.p = 500
+                    ps = x.param.schema()['p']
+                    data = json.loads(x.param.serialize_parameters())
+                    if not jsonschema.Draft7Validator(ps).is_valid(data['p']):
+                        vs.append(V('state-fails-schema', '%s(%s): instance with bounds reconfigured to (-1000, 1000) holds 500, its schema %r rejects it' % (t, key['cfg'], ps),
+                                    level='instance-reconfigured', **key))
+                    if jsonschema.Draft7Validator(ps).is_valid(5000):
+                        vs.append(V('out-of-bounds-accepted', '%s(%s): instance-level schema %r accepts 5000' % (t, key['cfg'], ps), level='instance-reconfigured', **key))
+                    cs = X.param.schema()['p']
+                    if cfg['bounds'] is not None and cfg['bounds'][1] is not None and jsonschema.Draft7Validator(cs).is_valid(500):
+                        vs.append(V('out-of-bounds-accepted', '%s(%s): class-level schema %r accepts 500 after an instance was reconfigured' % (t, key['cfg'], cs), level='class-after-instance', **key))
+                    hits['validated'] += 1
+                except Exception as e:
+                    vs.append(V('schema-or-serialize-raises', '%s(%s) reconfigured instance: %r' % (t, key['cfg'], e), level='instance-reconfigured', exc=type(e).__name__, **key))
             # out-of-bounds probes for Number / Integer (on the schema of a valid state)
             if probes and first:
                 X = type('X', (param.Parameterized,), {'p': factory(dflt)})
